@@ -86,6 +86,7 @@ type CtlStep struct {
 	Writes []k8s.VStatusWrite `json:"writes"`
 	VErr   k8s.VErr           `json:"verr"`
 	Probe  k8s.VProbe         `json:"probe"`
+	Render []k8s.VMaster      `json:"render"`
 	Hosts  map[string]string  `json:"hosts"`
 	LHosts map[string]string  `json:"lhosts"`
 	Res    []k8s.VRes         `json:"res"`
@@ -628,11 +629,16 @@ func (g *gen) compositionSeed() []Event {
 	if r.Chance(2, 3) {
 		h := vh.Pick(r, hosts[1:4])
 		routes := [][2]string{{"/a", "b"}, {vh.Pick(r, []string{"/b", "/a/b", "=/a", "~ ^/a"}), "a-b/c"}}
+		sub := vh.Pick(r, []string{"/a/x", "/a/b/c", "/a"})
 		if r.Chance(1, 3) {
-			routes = append(routes, [2]string{"/a/b", "b"}) // the same route referenced twice
+			// the same route referenced twice, by the same or by the other spelling of its name
+			routes = append(routes, [2]string{"/a/b", vh.Pick(r, []string{"b", "ns1/b"})})
+			if r.Bool() {
+				sub = "/a/b/c" // lies under both referencing routes
+			}
 		}
 		put(Spec{Kind: "vs", NS: "ns1", Name: "a", ClassField: nginx, Host: h, Routes: routes})
-		put(Spec{Kind: "vsr", NS: "ns1", Name: "b", ClassField: nginx, Host: h, Subpaths: []string{vh.Pick(r, []string{"/a/x", "/a/b/c", "/a"})}})
+		put(Spec{Kind: "vsr", NS: "ns1", Name: "b", ClassField: nginx, Host: h, Subpaths: []string{sub}})
 		put(Spec{Kind: "vsr", NS: "a-b", Name: "c", ClassField: nginx, Host: vh.Pick(r, []string{h, h, hosts[0]}), Subpaths: []string{routes[1][0]}})
 	}
 	// random order of the seed events: the composition must not depend on it
@@ -972,7 +978,7 @@ func runCtl(c *Case, anns map[string]int) (err error) {
 		if err != nil {
 			return err
 		}
-		c.Ctl = append(c.Ctl, CtlStep{Events: evs, Writes: writes, VErr: verr, Probe: v.LastProbe, Hosts: v.Arb.Hosts(), LHosts: v.Arb.LHosts(), Res: v.Arb.Resources()})
+		c.Ctl = append(c.Ctl, CtlStep{Events: evs, Writes: writes, VErr: verr, Probe: v.LastProbe, Render: v.Mergeable(), Hosts: v.Arb.Hosts(), LHosts: v.Arb.LHosts(), Res: v.Arb.Resources()})
 	}
 	c.Leader = &LeaderObs{Writes: v.Leader(), Policies: k8s.VerifPolicies}
 	return nil
